@@ -84,6 +84,11 @@ def lean_bounds(chk, d, ents):
                                       {"kernel": c.name, "mentions": m[1:]})
                 if bad is not None:
                     ent, prm, r = bad
+                    if "oob" not in r:
+                        # the model could not run the kernel (unsupported node, bad index expression, parse error): the tie is
+                        # broken, but that is not an out-of-bounds access
+                        chk.disagree("shape run of a generated kernel fails in the Lean semantics", {"kernel": c.name, "variant": tag, "entity": ent, "perm": prm, "reply": r})
+                        continue
                     # exec on the real AST with contract-size buffers is the property's own oracle here
                     # (instrumented semantics); the C-level confirmation is run by c_search.
                     chk.violation(f"oob:{e.name}:{r[1] if len(r) > 1 else '?'}:{r[2] if len(r) > 2 else '?'}",
@@ -146,6 +151,10 @@ def c_search(chk, ents):
     work = _c_worker_factory(ents, chk.seed)
     res = cjit.parallel_map(work, list(range(len(ents))))
     for i, (st, r) in sorted(res.items()):
+        if st == "died" and not any(c in str(r) for c in ("-11", "-7", "-6")):
+            # killed by something else than SIGSEGV / SIGBUS / SIGABRT (OOM killer, operator): not evidence of an access
+            chk.disagree("sentinel worker died", {"entry": ents[i].name, "detail": r})
+            continue
         if st == "died":
             chk.violation(f"oob:crash:{ents[i].name}", "kernel call crashed the process with exact-size buffers", {"entry": ents[i].name, "detail": r})
             continue
@@ -159,8 +168,9 @@ def c_search(chk, ents):
 
 def run(chk):
     chk.rule = ("every kernel AST of the corpus is executed by the Lean driver over the one-point domain with arrays of exactly the "
-                "contract extents (computed from the UFL form and Basix, not from FFCx's IR), for EVERY valid (entity, permutation) "
-                "argument tuple; distinct = kernel × variant. search: compiled C kernels called with NaN-sentinel padded inputs "
+                "contract extents (computed from the UFL form and Basix, not from FFCx's IR), for every valid (entity, permutation) "
+                "argument tuple when there are at most 300 (quick) / 4000 (thorough) of them, otherwise for all tuples at the extreme values "
+                "of either argument plus a seeded sample (listed in reduced_entity_perm_products); distinct = kernel × variant. search: compiled C kernels called with NaN-sentinel padded inputs "
                 "and canaries around A.")
     chk.trusted += ["harness/kernels.py contract extents (computed from UFL form data and Basix)",
                     "the driver's evaluation `exec uExtra k τ = ok` is not kernel-checked"]
